@@ -313,9 +313,9 @@ def theorem_names(path):
 
 def parse_axioms(out):
     res = {}
-    for m in re.finditer(r"'([^']+)' depends on axioms: \[([^\]]*)\]", out, flags=re.S):
+    for m in re.finditer(r"'(.+?)' depends on axioms: \[([^\]]*)\]", out, flags=re.S):
         res[m.group(1)] = [a.strip() for a in m.group(2).replace("\n", " ").split(",") if a.strip()]
-    for m in re.finditer(r"'([^']+)' does not depend on any axioms", out):
+    for m in re.finditer(r"'(.+?)' does not depend on any axioms", out):
         res[m.group(1)] = []
     return res
 
